@@ -121,6 +121,46 @@ T = {
  "C19-m6": ("C19", "RenderFile returns a file without {{ and {% as it stands, whatever the engine's delimiters", "c19.equivalence after a fifth of the cases went through ParseTemplateAndCache + include; missed before"),
  "C20-m5": ("C20", "Flush retries after a short write and forgets the error when the retry succeeds: a writer that fails once is reported as success", "c20.write-faults after writers that fail only once were added; missed before"),
  "C20-m6": ("C20", "WrapError re-wraps a location-less inner error by its message only: Cause() is nil for failures surfacing at flushes, trim markers and raw text inside a block on line >= 2", "c20.write-faults after the oracle required the cause chain to reach the writer's error value (it accepted the message alone before); missed before"),
+ "C01-m7": ("C01", "a numeric string too large for the target type keeps strconv's range error instead of a TypeError: {{ \"1e999\" | plus: 1 }} or truncate: \"99999999999999999999\" panics", "c01.matrix after the universe gained oversized numeric strings; missed before"),
+ "C01-m8": ("C01", "slice tests the start against the byte length before converting to runes: a non-ASCII receiver with a start between the character count and the byte count panics", "c01.matrix (first run)"),
+ "C02-m7": ("C02", "ParseAndRender / ParseAndRenderString return a source without a { verbatim, whatever the engine's delimiters: entry points disagree on an engine with brace-free delimiters", "c02.entry-points after a fifth of the cases ran on engines with delimiters of their own (c19.equivalence saw it as it stood); missed before"),
+ "C02-m8": ("C02", "a map[any]any index that misses falls back to the first key that is Liquid-equal, scanning unsorted MapKeys: {int64(1), float64(1)} indexed with 1 answers at random", "c02.entry-points after the bindings gained a map with Liquid-equal keys of different Go types; missed before"),
+ "C03-m7": ("C03", "RenderFile keeps the compiled include target on the TagNode without a key: later renders (and later iterations) include what the first one named", "c03.history after templates gained includes whose name comes from the bindings; missed before"),
+ "C03-m8": ("C03", "SortedMapKeys' last tie-break prints keys without their type: 1, 1.0 and int8(1) tie and come out in MapKeys order", "c03.history after environments gained a map with Liquid-equal keys; missed before"),
+ "C04-m7": ("C04", "ParseDate moves the layout that matched to the front of the package-level list", "c04.concurrent (first run)"),
+ "C04-m8": ("C04", "the cycle position map is allocated at compile time and emptied on loop entry", "c04.concurrent (first run)"),
+ "C05-m7": ("C05", "Compile strips a leading byte-order mark", "c05.scan after the fragments gained BOM, other line ends, invisible and replacement characters; missed before"),
+ "C05-m8": ("C05", "an object whose value is nil returns before resetting the trim flag and flushing: a hyphen facing that object trims text on its other side", "NOT DETECTED, deliberately: every hyphen involved faces an object, not literal text; C13 fixes the output exactly only when hyphens face literal text (and the pinned tree itself trims across a tag in that situation); the modulo-white-space relations hold"),
+ "C06-m7": ("C06", "the tag-argument pattern becomes a lazy .+? that stops at a newline: a tag whose arguments span lines is text", "c06.sequences after tags were also spelled with arguments spanning lines; missed before"),
+ "C06-m8": ("C06", "trim-token cases hoisted above the comment/raw modes (the edit of C05-m1 / C13-m1 again)", "c13.hyphens and c05.raw-comment; no c06 check observes it (acceptance and tree shape are unchanged)"),
+ "C07-m7": ("C07", "break/continue handling tests the error's cause and loses the default branch: a cause-less error raised inside a loop body is swallowed", "c07.locate (first run)"),
+ "C07-m8": ("C07", "values.Call recovers error-valued panics: the conversion error of a lazily converted optional argument arrives wrapped in a FilterError", "c07.locate after kinds with lazily converted arguments were added and the oracle required Cause() itself to be the TypeError; missed before"),
+ "C08-m7": ("C08", "a negative index is clamped to 0 instead of checked: arr[-4] on three elements is the first element", "c08.index-grid (first run)"),
+ "C08-m8": ("C08", "integer literals are parsed with base 0: 010 is 8, 08 is a syntax error", "c08.literals after every n < 130 was written with leading zeros; missed before (007 reads the same in both bases)"),
+ "C09-m7": ("C09", ">= and <= become not-less of the flipped pair: true for unordered pairs (nil, unlike kinds, arrays)", "c09.pair (first run)"),
+ "C09-m8": ("C09", "Equal asks the type, not the value, whether == is safe: two structs with a slice behind an interface field panic", "c01.matrix; structs are outside c09's universe (the statement lists nil, booleans, numbers, strings, arrays, maps and Drops)"),
+ "C10-m7": ("C10", "case drops clauses with an empty body at compile time: a matching empty when no longer ends the search", "c10.programs (first run)"),
+ "C10-m8": ("C10", "case compares with Go == first: two containers of the same type panic", "c10.case (first run)"),
+ "C11-m7": ("C11", "the else branch is decided by a count of iterations that ran to their end: a loop whose iterations all break/continue renders else too", "c11.grid (first run)"),
+ "C11-m8": ("C11", "map iteration hands out one shared pair buffer: a pair kept in a variable shows a later entry", "c11.map after the first and the previous pair were kept in variables and read later; missed before"),
+ "C12-m7": ("C12", "the restore of the loop variable is skipped when the loop is left by break", "c12.model (first run)"),
+ "C12-m8": ("C12", "Context.Get resolves drops: the loop saves a snapshot of a shadowed Drop and writes that back", "c12.shadowed-live-value (added: a Drop over a counter that a filter advances, shadowed by a loop); missed before"),
+ "C13-m7": ("C13", "a tag's left hyphen is looked for at the object delimiter's offset: wrong when the two left delimiters differ in length", "c19.equivalence as it stood; c13.hyphens after a fifth of the programs ran on engines with delimiters of unequal lengths; c13 missed it before"),
+ "C13-m8": ("C13", "break/continue reject arguments, and the tag pattern captures the hyphen of {% break -%} as an argument", "c13.hyphens (first run)"),
+ "C14-m7": ("C14", "the include streams into the includer's trim writer: hyphens at the edges of the included file trim the includer's white space", "c14.graph after files could begin/end with a hyphenated tag and the expectation rendered the included content on its own (capture) instead of splicing source; missed before"),
+ "C14-m8": ("C14", "RenderFile's pooled buffer is not reset on the error path", "c14.graph (first run)"),
+ "C15-m7": ("C15", "sort by key treats a zero-valued property of a typed map as lacking the key", "c15.apply after a third of the record sets became map[string]int with zero and negative values (c18.programs saw it as it stood); missed before"),
+ "C15-m8": ("C15", "reverse uses slices.Reverse on the receiver", "c15.apply (first run)"),
+ "C16-m7": ("C16", "split treats any white-space-only separator like the single space", "c16.split-join after newline, tab, two spaces and NBSP became separators; missed before"),
+ "C16-m8": ("C16", "escape_once unescapes with a replacer that lacks &#34;", "c16.apply (first run)"),
+ "C17-m7": ("C17", "modulo computed as a - b*trunc(a/b)", "c17.apply (first run)"),
+ "C17-m8": ("C17", "ceil and floor return floats", "c17.apply (first run)"),
+ "C18-m7": ("C18", "compareInts folds the mixed-sign branches and keeps a wrong early return", "c18.numeric-grid (first run)"),
+ "C18-m8": ("C18", "Convert lets a []int32 (a rune slice) convert to a string", "c18.filters after arrays were also given as typed slices of every integer width in every position; missed before"),
+ "C19-m7": ("C19", "the object half of the token pattern is used as a format string: a % in an object delimiter garbles it", "c19.equivalence (first run)"),
+ "C19-m8": ("C19", "delimiter lengths are taken before the defaults are filled in: no hyphen is seen next to a defaulted delimiter", "c19.equivalence (first run)"),
+ "C20-m7": ("C20", "tablerow still closes the cell after a failed body", "c20.write-faults (first run: writes-after-failure)"),
+ "C20-m8": ("C20", "error messages abbreviate a long source text at the last blank within 120 bytes: none there panics", "c20.write-faults after long text chunks without leading white space were added; missed before"),
  "C17-m1": ("C17", "round gains a fast path math.Floor(n+0.5) for places == 0: odd integers between 2^52 and 2^53 round to their even neighbour", "c17.apply"),
  "C17-m2": ("C17", "ValueOf interns float 0.0/1.0 as int 0/1: divided_by with a float divisor of exactly 1.0 does integer division", "c17.apply"),
 }
